@@ -119,6 +119,20 @@ class FlagEval:
         return None
 
 
+class StrList:
+    """A local list of token parts: the set of possible contents, each a tuple of abstract strings (joined later with a separator)."""
+    __slots__ = ("alts",)
+
+    def __init__(self, alts):
+        self.alts = frozenset(alts)
+
+    def __eq__(self, o):
+        return isinstance(o, StrList) and o.alts == self.alts
+
+    def __hash__(self):
+        return hash(self.alts)
+
+
 class StringInterp(AbsInt):
     """State: dict var -> frozenset of abstract strings (string variables only) + '$popped' counters for product parts."""
 
@@ -141,6 +155,8 @@ class StringInterp(AbsInt):
         for k, v in b.items():
             if k in out and isinstance(v, frozenset) and isinstance(out[k], frozenset):
                 out[k] = out[k] | v
+            elif k in out and isinstance(v, StrList) and isinstance(out[k], StrList):
+                out[k] = StrList(out[k].alts | v.alts)
             elif k not in out:
                 out[k] = v
             elif out[k] != v:
@@ -209,6 +225,18 @@ class StringInterp(AbsInt):
                         x = strip_last_char(x)
                 out.add(x)
             return frozenset(out)
+        if isinstance(e, ast.Call) and call_method(e)[1] == "join" and isinstance(call_method(e)[0], ast.Constant) and isinstance(call_method(e)[0].value, str) \
+                and len(e.args) == 1 and isinstance(e.args[0], ast.Name) and isinstance(st.get(e.args[0].id), StrList):
+            sep = call_method(e)[0].value
+            out = set()
+            for alt in st[e.args[0].id].alts:
+                acc = ()
+                for i, piece in enumerate(alt):
+                    if i and sep:
+                        acc = acc + (("lit", sep),)
+                    acc = acc + piece
+                out.add(acc)
+            return frozenset(out)
         if isinstance(e, ast.Call):
             recv, name = call_method(e)
             if recv is not None and name in ("rstrip", "removesuffix", "strip") and e.args and isinstance(e.args[0], ast.Constant) and e.args[0].value == "-":
@@ -236,6 +264,10 @@ class StringInterp(AbsInt):
     def stmt(self, s, st):
         if isinstance(s, ast.Assign) and len(s.targets) == 1:
             t = s.targets[0]
+            if isinstance(t, ast.Name) and isinstance(s.value, ast.List) and not s.value.elts and t.id not in self.out_lists \
+                    and self._is_part_list(t.id):
+                st[t.id] = StrList([()])
+                return st
             if isinstance(t, ast.Name):
                 ss = self.strings(s.value, st)
                 if ss is not None:
@@ -259,9 +291,23 @@ class StringInterp(AbsInt):
             self.scan_calls(s.value, st)
             return st
         if isinstance(s, ast.Expr):
+            c = s.value
+            if isinstance(c, ast.Call) and call_method(c)[1] == "append" and isinstance(call_method(c)[0], ast.Name) and len(c.args) == 1 \
+                    and isinstance(st.get(call_method(c)[0].id), StrList):
+                b = self.strings(c.args[0], st)
+                if b is None:
+                    raise AnalysisError(f"{self.fi.qualname}: `{short(s)}` appends a non-modelled string to a list of token parts")
+                st[call_method(c)[0].id] = StrList(alt + (x,) for alt in st[call_method(c)[0].id].alts for x in b)
+                return st
             self.scan_calls(s.value, st)
             return st
         return st
+
+    def _is_part_list(self, name: str) -> bool:
+        """A local list that is only ever appended to and joined with a separator (a token assembled from parts)."""
+        joined = any(isinstance(c, ast.Call) and call_method(c)[1] == "join" and c.args and isinstance(c.args[0], ast.Name) and c.args[0].id == name
+                     for c in ast.walk(self.fi.node))
+        return joined
 
     def other_assign(self, name, value, st):
         pass
